@@ -632,7 +632,7 @@ Print Assumptions C09_multi_solve_check_13_impossible_carriers.
 Require Import Fggs.Model.Axis Fggs.Model.AxisCheck Fggs.Model.PSolve Fggs.Model.PSolveCheck.
 Require Import Fggs.Proofs.Axis_antiunify Fggs.Proofs.PSolve_anti Fggs.Proofs.PSolve_step Fggs.Proofs.PSolve_sized
                Fggs.Proofs.PSolve_loop Fggs.Proofs.PSolve_term Fggs.Proofs.PSolve_fuel Fggs.Proofs.PSolve_oracle
-               Fggs.Proofs.PSolve_dense Fggs.Proofs.PSolve_main Fggs.Proofs.PSolve_check Fggs.Proofs.Instances_psolve.
+               Fggs.Proofs.PSolve_dense Fggs.Proofs.PSolve_main Fggs.Proofs.PSolve_check Fggs.Proofs.PSolve_nouf Fggs.Proofs.Instances_psolve.
 Notation below := Fggs.Proofs.Axis_complete_gen.below (only parsing).
 
 (** (B1) closure: when the loop exits normally and nothing was warned about, the support of the
@@ -875,15 +875,34 @@ Theorem C09_psolve_equals_dense_solve_viterbi :
 Proof. exact trop_psolve_dense_least. Qed.
 Print Assumptions C09_psolve_equals_dense_solve_viterbi.
 
-(** (B3) termination.  Full statement: for typed patterns the [while True] loop finishes.
-    Proved ([_partial]): with [loop_fuel e0 = amsr e0 * (amsr e0 + 1) + 1] units of fuel
-    ([amsr] weighs physical axis occurrences by 1, product and sum nodes by 2) the model's loop
-    does not run out of fuel unless a warning was issued or the clone of [a.vaxes[0]] computed in
-    some pass has a size-1 factor inside a product (premise checked on every case by
-    [psolve_axis_check], verdict 15; __post_init__ and productAxis remove such factors).
+(** (B3) termination.  With [loop_fuel e0 = amsr e0 * (amsr e0 + 1) + 1] units of fuel ([amsr]
+    weighs physical axis occurrences by 1, product and sum nodes by 2) the model's loop does not
+    run out of fuel: for all patterns in normal form ([nouf]: no factor of size 1 inside a
+    product -- what __post_init__ and productAxis guarantee) whose physical axes have one size
+    each, the loop finishes within [amsr e0 * (amsr e0 + 1)] passes, unless a warning (index type
+    mismatch) is issued on the way.  (Not proved: that typed patterns never warn in LATER passes;
+    the typing judgement of C06 is not preserved by antiunify.  Failures of the fuel-bounded axis
+    functions are the separate outcome [LErr].) *)
+Theorem C09_psolve_loop_terminates :
+  forall (next : positive) (a0 a1 e0 : axis) (sz : positive -> nat),
+    below next a0 -> below next a1 -> below next e0 ->
+    (forall k, In k (fv e0) -> ~ In k (fv a0 ++ fv a1)) ->
+    szc sz a0 -> szc sz a1 -> szc sz e0 ->
+    nouf a0 = true -> nouf a1 = true -> nouf e0 = true ->
+    match psolve_loop (loop_fuel e0) a0 a1 e0 (mkLI 0 next false []) with
+    | LFuel _ i' => li_warn i' = false -> False
+    | _ => True
+    end.
+Proof. exact psolve_loop_terminates. Qed.
+Print Assumptions C09_psolve_loop_terminates.
+
+(** the same for arbitrary patterns, with the normal form of the clones as a premise on the trace
+    of the run (checked on every case by [psolve_axis_check], verdict 15).
     Ingredients: one antiunify never increases the weight and decreases it by the number of
     recorded pairs whose first part is not a physical axis; a pass that goes on with only physical
-    first parts increases the number of distinct physical axes, which the weight bounds. *)
+    first parts increases the number of distinct physical axes, which the weight bounds; [unify]
+    (in the values it binds), [clone] under a size-preserving substitution and [antiunify]
+    preserve the normal form. *)
 Theorem C09_psolve_loop_terminates_partial :
   forall (next : positive) (a0 a1 e0 : axis),
     below next a0 -> below next a1 -> below next e0 ->
@@ -909,6 +928,18 @@ Theorem C09_pass_splits :
     acq_all_phys (as_list st') = true -> acq_injective (as_list st') = false -> dvars e < dvars g.
 Proof. exact pass_splits. Qed.
 Print Assumptions C09_pass_splits.
+
+Theorem C09_normal_form_preserved :
+  (forall fuel e f next b st, nouf e = true -> nouf f = true ->
+     unify fuel e f {| us_subst := []; us_next := next; us_warn := false |} = Ok (b, st) ->
+     forall k T, In (k, T) (us_subst st) -> nouf T = true)
+  /\ (forall sigma, Fggs.Proofs.Axis_subst.Sized sigma -> (forall k T, In (k, T) sigma -> nouf T = true) ->
+      forall fuel e c, Fggs.Proofs.Axis_clone.sized_for sigma e -> nouf e = true ->
+      clone fuel sigma e = Ok c -> nouf c = true)
+  /\ (forall fuel e f B g st', nouf e = true -> nouf f = true ->
+      antiunify fuel e f (astate0 B) = Ok (g, st') -> nouf g = true).
+Proof. exact (conj unify_nouf (conj clone_nouf anti_nouf)). Qed.
+Print Assumptions C09_normal_form_preserved.
 
 (** the oracles that judge the implementation's solution axis, and what verdict 0 of the check
     function means *)
